@@ -273,10 +273,20 @@ class Gen:
             core = r.choice(FIXED)
             if core in NOSWAP:
                 big = False
-        parser = ("#" if rep else "") + ("!" if big else "") + core + "->"
         dest = "stack"
+        same_type_into = None
         if self.outputs and r.random() < 0.5:
-            dest = r.choice(self.outputs)[0]
+            out = r.choice(self.outputs)
+            dest = out[0]
+            same = {"bool": "?", "int8": "b", "int16": "h", "int32": "i", "int64": "q", "uint8": "B", "uint16": "H",
+                    "uint32": "I", "uint64": "Q", "float32": "f", "float64": "d"}.get(out[1])
+            if same and kind >= 0.22 and r.random() < 0.4:
+                # items of the output's own type: the machine copies them in one piece (a path of its own per type)
+                core = same
+                big = r.random() < 0.4 and core not in NOSWAP
+                rep = rep or r.random() < 0.5
+                same_type_into = out[0]
+        parser = ("#" if rep else "") + ("!" if big else "") + core + "->"
         pre = []
         nd = d
         cnt = 1
@@ -289,6 +299,9 @@ class Gen:
                 pre = [["lit", 1], ["lit", 61], ["w", "lshift"]] + ([["w", "1+"]] if r.random() < 0.5 else [])
         if dest == "stack":
             nd = d + max(0, min(cnt, 8))
+        if same_type_into is not None and rep and r.random() < 0.5:
+            # ... appended to an output that already holds something, two or more items at a time
+            pre = [["lit", r.choice([1, 2, 3])], ["out", same_type_into, "<-"], ["lit", r.choice([2, 2, 3, 4])]]
         return pre + [["read", x, parser, dest]], nd, 1 + len(pre)
 
     def output_node(self, d, sloppy):
@@ -319,7 +332,7 @@ def has_bool_read(prog):
 
 
 def gen_input_bytes(r, boolean_only):
-    n = r.choice([0, 1, 2, 3, 4, 7, 8, 9, 12, 16, 17, 24, 32, 40])
+    n = r.choice([0, 1, 2, 3, 4, 7, 8, 9, 12, 16, 17, 24, 32, 40, 48, 64])
     style = r.random()
     if boolean_only:
         return bytes(r.choice([0, 1]) for _ in range(n))
